@@ -368,6 +368,22 @@ func c24APIByKey(k int16) *c24API {
 	return nil
 }
 
+// partFor keeps a request off partitions that do not exist in an existing topic while
+// auto-creation is on: getPartitionLog then spins forever (ensureTopic reports "exists",
+// the loop retries) -- a liveness defect outside this property that would only turn
+// every run into a timeout.
+func (w *c24World) partFor(topic string, want int32) int32 {
+	m, err := w.store.Metadata(context.Background(), []string{topic})
+	if err != nil || len(m.Topics) != 1 || m.Topics[0].ErrorCode != 0 {
+		return want % 2 // unknown topic: auto-create makes partition+1 partitions
+	}
+	n := int32(len(m.Topics[0].Partitions))
+	if !w.h.autoCreateTopics || n == 0 {
+		return want
+	}
+	return want % n
+}
+
 func (w *c24World) build(r c24Req) kmsg.Request {
 	member, gen := "bogus-member", int32(99)
 	if r.ValidMem {
@@ -386,7 +402,7 @@ func (w *c24World) build(r c24Req) kmsg.Request {
 			rt := kmsg.NewProduceRequestTopic()
 			rt.Topic = t
 			rp := kmsg.NewProduceRequestTopicPartition()
-			rp.Partition = r.Part
+			rp.Partition = w.partFor(t, r.Part)
 			rp.Records = vfkit.SimpleBatch(0, 1700000000000, 2, "intruder")
 			rt.Partitions = append(rt.Partitions, rp)
 			req.Topics = append(req.Topics, rt)
@@ -406,7 +422,7 @@ func (w *c24World) build(r c24Req) kmsg.Request {
 				rt.Topic = t
 			}
 			rp := kmsg.NewFetchRequestTopicPartition()
-			rp.Partition = r.Part
+			rp.Partition = w.partFor(t, r.Part)
 			rp.FetchOffset = 0
 			rp.PartitionMaxBytes = 1 << 20
 			rt.Partitions = append(rt.Partitions, rp)
@@ -420,7 +436,7 @@ func (w *c24World) build(r c24Req) kmsg.Request {
 			rt := kmsg.NewListOffsetsRequestTopic()
 			rt.Topic = t
 			rp := kmsg.NewListOffsetsRequestTopicPartition()
-			rp.Partition = r.Part
+			rp.Partition = w.partFor(t, r.Part)
 			rp.Timestamp = -1
 			if r.Earliest {
 				rp.Timestamp = -2
@@ -449,7 +465,7 @@ func (w *c24World) build(r c24Req) kmsg.Request {
 			rt := kmsg.NewOffsetCommitRequestTopic()
 			rt.Topic = t
 			rp := kmsg.NewOffsetCommitRequestTopicPartition()
-			rp.Partition, rp.Offset, rp.Metadata = r.Part, 1, kmsg.StringPtr("intruder")
+			rp.Partition, rp.Offset, rp.Metadata = w.partFor(t, r.Part), 1, kmsg.StringPtr("intruder")
 			rt.Partitions = append(rt.Partitions, rp)
 			req.Topics = append(req.Topics, rt)
 		}
@@ -524,7 +540,7 @@ func (w *c24World) build(r c24Req) kmsg.Request {
 			rt := kmsg.NewOffsetForLeaderEpochRequestTopic()
 			rt.Topic = t
 			rp := kmsg.NewOffsetForLeaderEpochRequestTopicPartition()
-			rp.Partition = r.Part
+			rp.Partition = w.partFor(t, r.Part)
 			rt.Partitions = append(rt.Partitions, rp)
 			req.Topics = append(req.Topics, rt)
 		}
